@@ -8,6 +8,8 @@ entries in random order, extra parameters (same-named at top level and nested, d
 calls each; the real get_converter / impl_converter / convert / ConversionRetort are run in-process and compared
 with the model driver on: converter produced or ProviderNotFoundError, every call's result (type-exact,
 field-wise) or TypeError.
+Second suite `link`: the linkings the real ModelCoercerProvider fetches for the top-level model pair (observed by a
+recording subclass at the end of the user recipe) against `fetchFieldLinking` of the model.
 Direct oracle (real code only): the result equals a Python transcription of the documented algorithm
 (harness/props/c13_oracle.py `Spec`), the source and the extra arguments are unchanged by the call, an
 impl_converter result has the stub's signature / name, creation raises nothing but ProviderNotFoundError.
@@ -30,7 +32,7 @@ CLAIM = {
         "name, coercion recursing through nested models, Optional, iterables and dicts (convert_eq_spec, "
         "call_eq_spec); recipe order decides (first_link_wins); a same-named extra parameter, rightmost first, wins "
         "over the source field exactly for top-level fields (param_over_field_top_level, "
-        "nested_ignores_params); from_param reaches every level (from_param_any_level); unmatched extra source "
+        "param_over_field_top_level_only, nested_ignores_params); from_param reaches every level (from_param_any_level); unmatched extra source "
         "fields do not change any linking (extra_src_ignored); plan evaluation cannot write to the source "
         "(src_untouched); the produced function carries the stub's signature (signature_preserved). The hand-written "
         "model is tied to /repo on every run by the `convert` correspondence over generated model pairs, recipes, "
@@ -214,15 +216,61 @@ def check_case(ctx: Ctx, case, reply, suite="convert"):
     return compared, disagreements, world
 
 
+def link_applicable(case):
+    sig = case["sig"]
+    return (sig["ret"]["t"] == "model" and sig["params"][0]["ty"]["t"] == "model"
+            and all(p["kind"] not in ("var_pos", "var_kw") for p in sig["params"]))
+
+
+def canon_linking(u, j):
+    j = dict(j)
+    if j.get("l") == "field":
+        j["coercer"] = j.get("coercer") not in (None, False)
+    elif j.get("l") == "const":
+        j["value"] = canon_value(u, j["value"])
+    elif j.get("l") == "factory":
+        j.pop("f", None)
+    return j
+
+
+def check_links(ctx: Ctx, case, reply):
+    """suite `link`: the linkings the real ModelCoercerProvider fetches for the top-level model pair (observed by a
+    recording subclass) against `fetchFieldLinking` of the model"""
+    rc = RealCase(case)
+    real = rc.observe_linkings()
+    if "ok" not in reply:
+        model = reply
+    else:
+        model = [[fid, canon_linking(rc.u, lk)] for fid, lk in reply["ok"]]
+        if any(lk.get("l") == "failed" for _, lk in model):
+            model = None
+    if real is not None:
+        real = [[fid, canon_linking(rc.u, lk)] for fid, lk in real]
+    if real is None:
+        # the converter may also fail after linking (no coercer for a linked pair): only the model's
+        # "a field cannot be linked" is comparable then, through the `convert` suite
+        return 0, 0
+    if real != model:
+        ctx.disagree("link", short(case), real, model)
+        return 1, 1
+    return 1, 0
+
+
 def run_cases(ctx: Ctx, cases, drv, suite="convert"):
     reqs = []
-    for case in cases:
+    link_idx = []
+    for i, case in enumerate(cases):
         try:
             rc = RealCase(case)
         except Exception as e:
             raise InfraError(f"cannot materialise case: {type(e).__name__}: {e}\n{json.dumps(case)[:3000]}")
-        reqs.append(lean_request(case, rc.u.world_json()))
-    replies = drv.batch(reqs) if drv else [None] * len(cases)
+        world = rc.u.world_json()
+        reqs.append(lean_request(case, world))
+        if link_applicable(case) and suite == "convert":
+            link_idx.append(i)
+    link_reqs = [{"op": "link", "world": reqs[i]["world"], "sig": cases[i]["sig"], "recipe": cases[i]["recipe"]}
+                 for i in link_idx]
+    replies = drv.batch(reqs + link_reqs) if drv else [None] * len(cases)
     n = d = 0
     for case, rep in zip(cases, replies):
         c, dd, _ = check_case(ctx, case, rep, suite)
@@ -230,9 +278,13 @@ def run_cases(ctx: Ctx, cases, drv, suite="convert"):
         d += dd
     if drv:
         ctx.suite(suite, n, d)
-
-
-FIXED_CASES = []
+        ln = ld = 0
+        for i, rep in zip(link_idx, replies[len(cases):]):
+            a, b = check_links(ctx, cases[i], rep)
+            ln += a
+            ld += b
+        if link_idx:
+            ctx.suite("link", ln, ld)
 
 
 def _fixed_cases():
@@ -266,7 +318,7 @@ def run(ctx: Ctx):
         except InfraError:
             drv = None
     run_cases(ctx, _fixed_cases(), drv, "convert")
-    n = ctx.budget(2500, 36000)
+    n = ctx.budget(1800, 24000)
     batch = 500
     done = 0
     while done < n:
